@@ -441,10 +441,20 @@ class Interp:
     max_unroll = 400
 
     def loop_spec(self, node, env):
+        """a loop contract applies while its function is the one under verification
+        (entered through vc.body); elsewhere the loop just runs"""
         specs = self.world.loopspecs
         if not specs:
             return None
-        return specs.get(id(node))
+        spec = specs.get(id(node))
+        if spec is None:
+            return None
+        e = env
+        while e is not None:
+            if e.func is not None and not e.is_class and isinstance(e.func, FuncV) and not e.func.is_lambda:
+                return spec if id(e.func) in self.body_mode else None
+            e = e.parent
+        return None
 
     def s_For(self, node, env):
         spec = self.loop_spec(node, env)
